@@ -114,3 +114,53 @@ PRELUDE = r'''
 
 def prelude(tree):
     return PRELUDE.replace("%MACROS%", macros_from_boot(tree))
+
+
+RUN_TREE_G = r'''
+(defn run-tree-g [idx lim f flags &opt v0]
+  (c05/mark-root (fiber/root))
+  (set G @[(fiber/root)])
+  (set TR @[])
+  (def m (fiber/new f flags))
+  (array/push G m)
+  (set BASE (c05/stackn))
+  (c05/set-guard (+ BASE lim))      # the tree's root fiber runs at relative depth 1; the guard trips at relative depth lim
+  (def r (resume m v0))
+  (c05/set-guard 1024)
+  (print idx " " (string/join TR ";") " | done " (statnum (fiber/status m)) " " (fmt r) " " (snap0))
+  (flush))
+'''
+
+
+RUN_TREE_S = r'''
+(defn run-tree-s [idx acts f flags &opt v0]
+  (set G @[(fiber/root)])
+  (set TR @[])
+  (def m (fiber/new f flags))
+  (array/push G m)
+  (ev/go m v0)            # janet_schedule: the tree's root fiber becomes a task of the event loop
+  (ev/sleep 0)            # the loop runs it: janet_continue_signal(m, v0, &res, JANET_SIGNAL_OK) with no current fiber
+  (each [k v] acts
+    (if (= k :c) (ev/cancel m v) (ev/go m v))   # janet_cancel -> janet_continue_signal(..., JANET_SIGNAL_ERROR) / plain re-schedule
+    (ev/sleep 0))
+  (print idx " " (string/join TR ";") " | done " (statnum (fiber/status m)) " " (fmt (fiber/last-value m)) " " (snap))
+  (flush))
+'''
+
+
+def prelude_sched(tree):
+    """prelude of the task pass: the tree's root fiber is run, re-scheduled and cancelled by the event loop"""
+    return prelude(tree) + RUN_TREE_S
+
+
+def prelude_guard(tree):
+    """prelude of the guard pass (harness/C05/guardmain.c): every status snapshot carries janet_vm.stackn relative to the
+    tree's root, and each tree runs with the recursion guard of vm.c lowered to `lim` levels below its root"""
+    p = prelude(tree)
+    a = "(defn snap [] "
+    if p.count(a) != 1:
+        raise PreludeError("prelude: snap not found")
+    p = p.replace(a, "(var BASE 0)\n(defn snap0 [] ")
+    i = p.index("(defn fmt [x]")
+    p = p[:i] + '(defn snap [] (string (snap0) "/" (- (c05/stackn) BASE)))\n' + p[i:]
+    return p + RUN_TREE_G
